@@ -1,11 +1,11 @@
 SPECIFICATION Spec
 CONSTANTS
-  Ids = {1,2}
+  Ids = {1,2,3}
   MaxP = 2
-  MaxK = 1
+  MaxK = 2
   Slots = {1}
-  MaxMut = 0
+  MaxMut = 1
 VIEW view
 INVARIANTS TypeOK CacheCoherent Proportional Bounded
-PROPERTIES ReloadPreservesProposer
+PROPERTIES CopyIndependent RejectNoChange ObserversPure ReloadPreservesProposer
 CHECK_DEADLOCK FALSE
